@@ -154,18 +154,31 @@ PROPS = {
         functions=[DS + q for q in ("PositionalSporadicDissimilarity.compile_d_mat.<locals>.d_mat", "PositionalSporadicDissimilarity.d",
                                     "AbsoluteCategoricalDissimilarity.compile_d_mat.<locals>.d_mat", "AbsoluteCategoricalDissimilarity.d",
                                     "PrecomputedCategoricalDissimilarity.compile_d_mat.<locals>.d_mat",
-                                    "CombinedCategoricalDissimilarity.compile_d_mat.<locals>.d_mat")],
+                                    "CombinedCategoricalDissimilarity.compile_d_mat.<locals>.d_mat",
+                                    # constructors: the class invariant (the compiled kernel is the documented formula with the object's own
+                                    # delta_empty) for the positional, absolute and default combined dissimilarities
+                                    "PositionalSporadicDissimilarity.compile_d_mat", "AbstractDissimilarity.__init__#positional",
+                                    "PositionalSporadicDissimilarity.__init__",
+                                    "AbsoluteCategoricalDissimilarity.compile_d_mat", "AbstractDissimilarity.__init__#absolute",
+                                    "CategoricalDissimilarity.__init__#absolute", "AbsoluteCategoricalDissimilarity.__init__",
+                                    "CombinedCategoricalDissimilarity.compile_d_mat", "AbstractDissimilarity.__init__#combined",
+                                    "CombinedCategoricalDissimilarity.__init__#defaults", "CombinedCategoricalDissimilarity.__init__#supplied")],
         oracles=[DS + "CombinedCategoricalDissimilarity.__init__"],
         bounded=[dict(oracle=DS + "CombinedCategoricalDissimilarity.__init__",
-                      what="constructors (class invariant: the delta_empty captured by each compiled kernel is the object's), Precomputed.d, "
-                           "Combined.d, Lambda/Ordinal/Numerical/Levenshtein matrices are not under contract yet: every class, delta_empty in "
+                      what="the constructors of the precomputed / ordinal / numerical / Levenshtein families and of a combined dissimilarity with "
+                           "supplied components, Precomputed.d, Combined.d and check_if_dissim (assumed to change nothing) are not under "
+                           "contract: every class, delta_empty in "
                            "{0.5,1,2,3}, shuffled label order, 1..300 categories, components built with another delta_empty: d_mat(encoded) == "
                            "d(units) == documented formula, symmetric, >= 0, 0 on identical units")],
         design_ref="DESIGN.md section 4 C04",
         not_decided=["Levenshtein DP == edit distance (not part of the statement)", "float32 rounding (S2)",
-                     "class invariant kappa == delta_empty established by the constructors: bounded only"],
+                     "class invariant kappa == delta_empty: proved for PositionalSporadic, AbsoluteCategorical and the default Combined "
+                     "constructor, with default components and with supplied positional / absolute components built with any other delta_empty "
+                     "(the one delta_empty reaches both components and their kernels); other families: bounded"],
         trusted=S_COMMON + ["model: pyannote Segment.duration", "closure semantics: captured names are declared and checked against the "
-                            "free variables of the closure body"],
+                            "free variables of the closure body; a nested def yields a pure function value satisfying its own (separately "
+                            "proved) contract with the captured names bound to their values at the definition (not re-assigned afterwards: checked)",
+                            "check_if_dissim assumed to modify nothing (it may raise ValueError)"],
     ),
     "C09": dict(
         functions=[DS + "PositionalSporadicDissimilarity.compile_d_mat.<locals>.d_mat", DS + "AbsoluteCategoricalDissimilarity.compile_d_mat.<locals>.d_mat",
